@@ -90,6 +90,8 @@ double Relative_Difference(double a, double b)
 {
 	double d   = std::fabs(a - b);
 	double max = std::max(fabs(a), fabs(b));
+	if(max == 0.0)
+		return 0.0;
 	return d / max;
 }
 
